@@ -132,3 +132,26 @@ Example C10_zk_example :
   /\ map fst (known (fst (quiesce 50 ex_acc ex_tree zk_init))) = [1%positive]
   /\ watches (fst (quiesce 50 ex_acc ex_tree zk_init)) = [WGroupList; WTopicList 1; WPartList 1 7; WOffset 1 7 0].
 Proof. exact zk_rejected_silent_example. Qed.
+
+(* ---- notifier: in every history (responses, group-list refreshes, cluster-list updates interleaved for any clusters and
+   groups) no Notify call - open or close - goes to a module whose lists reject the group ---- *)
+Theorem C10_notifier_rejected_silent : forall mods h j now r m c,
+  NotifierProofs.names_distinct mods -> nth_error h j = Some (Notifier.HResponse now r) -> In m mods ->
+  Notifier.lists_accept (Notifier.nm_lists m (Notifier.nr_group r)) = false ->
+  In c (NotifierProofs.calls_at mods h j) -> Notifier.nc_module c <> Notifier.nm_name m.
+Proof. exact notifier_rejected_silent. Qed.
+Print Assumptions C10_notifier_rejected_silent.
+
+Theorem C10_notified_module_accepts : forall mods h j now r c,
+  NotifierProofs.names_distinct mods -> nth_error h j = Some (Notifier.HResponse now r) -> In c (NotifierProofs.calls_at mods h j) ->
+  exists m, In m mods /\ Notifier.nm_name m = Notifier.nc_module c /\
+            Notifier.lists_accept (Notifier.nm_lists m (Notifier.nr_group r)) = true.
+Proof. exact notified_module_accepts. Qed.
+Print Assumptions C10_notified_module_accepts.
+
+(* "exactly when": for a group every module's lists accept, the notifier behaves as if no lists were configured *)
+Theorem C10_notifier_accepted_as_unlisted : forall mods st now r,
+  (forall m, In m mods -> Notifier.lists_accept (Notifier.nm_lists m (Notifier.nr_group r)) = true) ->
+  Notifier.on_response (map NotifierProofs.without_lists mods) st now r = Notifier.on_response mods st now r.
+Proof. exact notifier_accepted_as_unlisted. Qed.
+Print Assumptions C10_notifier_accepted_as_unlisted.
